@@ -19,13 +19,13 @@ FILES = "lbuf.c sbuf.c regex.c rstr.c rset.c uc.c ren.c dir.c mot.c reg.c ex.c v
 
 # which quick checks look at code in which file (cheapest first)
 MAP = {
-    "lbuf.c": "C01 C03 C04 C06 C13 C15 C02 C20",
+    "lbuf.c": "C01 C03 C04 C06 C15 C02",
     "sbuf.c": "C01 C06 C14 C04 C08",
-    "regex.c": "C10 C12 C16 C13 C14 C11",
+    "regex.c": "C10 C12 C16 C14 C11",
     "rstr.c": "C12 C13 C14 C10",
     "rset.c": "C10 C12 C13 C14 C19",
-    "uc.c": "C16 C17 C18 C07 C08 C19",
-    "ren.c": "C17 C18 C19 C07 C08",
+    "uc.c": "C16 C17 C18 C07 C08",
+    "ren.c": "C17 C18 C07 C19",
     "dir.c": "C18 C17 C19",
     "mot.c": "C07 C08 C09",
     "reg.c": "C08 C09 C06",
@@ -35,6 +35,43 @@ MAP = {
     "term.c": "C19 C09 C05",
     "cmd.c": "C06 C05",
 }
+
+
+# ex.c / vi.c / led.c hold much that no property speaks of (tags, completion, help, options): only the functions
+# the properties are anchored in are evaluated there, each against the checks that drive it
+FUNC_MAP = {}
+def _fm(names, checks):
+    for n in names.split():
+        FUNC_MAP[n] = checks
+_fm("ec_buffer bufs_findroom bufs_number bufs_find bufs_shift bufs_open bufs_init bufs_switch bufs_free", "C20 C02")
+_fm("ec_edit", "C02 C20 C01")
+_fm("ec_write lbuf_save", "C03 C02 C01")
+_fm("ec_quit bufs_modified", "C02 C03 C20")
+_fm("ex_region ex_lineno ex_search ec_null ex_loc", "C06 C13 C15")
+_fm("ec_read ec_insert ec_print ec_put ec_yank ec_delete ec_mark ec_lnum ec_rs ec_at ec_exec ex_reg", "C06")
+_fm("ec_substitute replace", "C14 C15")
+_fm("ec_glob", "C15 C04")
+_fm("ex_arg ex_cmd ex_exec ex_txt", "C06 C14 C15")
+_fm("ec_undo ec_redo", "C04")
+_fm("vi", "C07 C19 C09 C08")
+_fm("vi_motion vi_nextoff vi_nextline vi_nextcol vi_motionln charcount vi_findchar vi_indents vi_col2off vi_off2col", "C07 C08")
+_fm("vc_motion vc_insert vc_join vc_replace vi_case vi_shift vc_put vi_change vi_yank vi_delete vi_pipe lbuf_region join_spaces vi_yankbuf vi_prefix reg_putln", "C08 C09")
+_fm("vi_search", "C13")
+_fm("vi_drawfix vi_drawupdate vi_drawagain vi_drawrow vi_wfix vi_scrollforward vi_scrollbackward vi_pos vi_curcol vi_drawmsg", "C19")
+_fm("vi_switch vi_wswap vi_wsplit vi_wonly vi_wclose", "C19 C20")
+_fm("vc_execute vi_back vc_repeat", "C09")
+_fm("led_input led_lastchar led_lastword led_readchar", "C08 C09")
+_fm("led_render led_pos led_offdir led_markrev", "C19")
+
+def func_of_lines(fn):
+    out, cur = [], None
+    lines = open(os.path.join(W, "base", fn), errors="replace").read().split("\n")
+    for i, l in enumerate(lines):
+        mm = re.match(r"^[A-Za-z_].*?\b(\w+)\(.*\)\s*$", l)
+        if mm and i + 1 < len(lines) and lines[i + 1].startswith("{"):
+            cur = mm.group(1)
+        out.append(cur)
+    return out
 
 OPS = [
     (r"(?<![<\-=!>])<=(?!=)", "<"), (r"(?<![<\-=!>])<(?![<=])", "<="),
@@ -170,6 +207,7 @@ def gen(files):
     print(tally)
 
 
+_FUNCS = {}
 def evaluate(limit, files=None):
     surv = [json.loads(l) for l in open(os.path.join(W, "survivors.jsonl"))]
     donep = os.path.join(W, "eval.jsonl")
@@ -182,7 +220,13 @@ def evaluate(limit, files=None):
     n = 0
     # relational / arithmetic / logic mutants first, statement deletions last (many of those are leaks only)
     forder = {f: i for i, f in enumerate(FILES)}
-    surv.sort(key=lambda m: (m["op"] == "delete-stmt", forder.get(m["file"], 99), m["line"]))
+    surv.sort(key=lambda m: (forder.get(m["file"], 99), m["line"]))
+    cnt = {}
+    for m in surv:			# round-robin over the files, so that every file is sampled early
+        k = (m["file"], m["op"] == "delete-stmt")
+        cnt[k] = cnt.get(k, 0) + 1
+        m["_rank"] = cnt[k]
+    surv.sort(key=lambda m: (m["op"] == "delete-stmt", m["_rank"], forder.get(m["file"], 99)))
     surv = [m for m in surv if "free(" not in m["old"] or m["op"] != "delete-stmt"]	# leaks are outside every property
     for m in surv:
         key = (m["file"], m["line"], m["col"], m["op"])
@@ -202,7 +246,12 @@ def evaluate(limit, files=None):
         env = dict(os.environ, NV_SRC=d, NV_EVIDENCE_DIR=os.path.join(W, "evidence"))
         caught, log = None, []
         t0 = time.time()
-        for cid in MAP[m["file"]].split():
+        fnname = _FUNCS.setdefault(m["file"], func_of_lines(m["file"]))[m["line"] - 1]
+        m["func"] = fnname
+        checklist = FUNC_MAP.get(fnname) if m["file"] in ("ex.c", "vi.c", "led.c") else MAP[m["file"]]
+        if not checklist:
+            continue
+        for cid in checklist.split():
             r = subprocess.run(["./run", cid, "quick"], cwd=VERIF, env=env, stdout=subprocess.PIPE,
                                stderr=subprocess.STDOUT)
             out = r.stdout.decode(errors="replace")
